@@ -5,6 +5,7 @@ import ProbLogModel.Cycles
 import ProbLogModel.Clark
 import ProbLogModel.DDNNF
 import ProbLogModel.Sem
+import ProbLogModel.SemFO
 open ProbLogModel.Proto ProbLogModel.StoreIO ProbLogModel.Formula ProbLogModel
 
 def pCircuit : SExp → Option DDNNF.Circuit
@@ -58,6 +59,67 @@ def pProg : SExp → Option Sem.Prog
       | _ => none)
     some { natoms := (← na.toNat?), nchoices := (← nc.toNat?), rules := rules, groups := groups }
   | _ => none
+
+/-! first-order programs (op SEMFO / GROUNDFO): see `spine.sem_line_fo` -/
+
+def pFOTerm : SExp → Option SemFO.Term
+  | .list [.atom "v", .atom x] => some (.var x)
+  | .list [.atom "c", .atom x] => some (.const x)
+  | _ => none
+
+def pFOAtom : SExp → Option SemFO.Atom
+  | .list (.atom p :: ts) => do some ⟨p, (← ts.mapM pFOTerm)⟩
+  | _ => none
+
+def pFOLit : SExp → Option SemFO.Lit
+  | .list [.atom "pos", a] => do some (.pos (← pFOAtom a))
+  | .list [.atom "neg", a] => do some (.neg (← pFOAtom a))
+  | .list [.atom "or", a, b] => do some (.or (← pFOAtom a) (← pFOAtom b))
+  | _ => none
+
+def pFOBody : SExp → Option (List SemFO.Lit)
+  | .list (.atom "body" :: ls) => ls.mapM pFOLit
+  | _ => none
+
+def pFOStmt : SExp → Option SemFO.Stmt
+  | .list [.atom "fact", a] => do some (.fact (← pFOAtom a))
+  | .list [.atom "pf", .atom p, a] => do some (.pf (← parseRat p) (← pFOAtom a))
+  | .list [.atom "rule", h, b] => do some (.rule (← pFOAtom h) (← pFOBody b))
+  | .list [.atom "prule", .atom p, h, b] => do some (.prule (← parseRat p) (← pFOAtom h) (← pFOBody b))
+  | .list [.atom "ad", .list (.atom "heads" :: hs), b] => do
+    let hs ← hs.mapM (fun (h : SExp) => match h with
+      | .list [.atom p, a] => do some ((← parseRat p), (← pFOAtom a))
+      | _ => none)
+    some (.ad hs (← pFOBody b))
+  | _ => none
+
+def pFO : SExp → Option SemFO.FOProgram
+  | .list [.atom "fo", .list (.atom "consts" :: cs), .list (.atom "preds" :: ps), .list (.atom "stmts" :: ss),
+           .list (.atom "queries" :: qs), .list (.atom "evidence" :: es)] => do
+    let cs ← cs.mapM SExp.str?
+    let ps ← ps.mapM (fun (p : SExp) => match p with
+      | .list [.atom n, .atom ar] => do some (n, (← ar.toNat?))
+      | _ => none)
+    let ss ← ss.mapM pFOStmt
+    let qs ← qs.mapM pFOAtom
+    let es ← es.mapM (fun (e : SExp) => match e with
+      | .list [a, .atom v] => do some ((← pFOAtom a), v == "t")
+      | _ => none)
+    some { consts := cs, preds := ps, stmts := ss, queries := qs, evidence := es }
+  | _ => none
+
+/-- `spine.atom_s` -/
+def rGAtom (a : SemFO.GAtom) : String :=
+  if a.args.isEmpty then a.pred else a.pred ++ "(" ++ ",".intercalate a.args ++ ")"
+
+/-- the result line of op SEM -/
+def semResult (P : Sem.Prog) (qs : List Nat) (ev : List (Nat × Bool)) : String :=
+  let nw := ((Sem.restrict P (qs ++ ev.map (·.1))).groups.map (fun g => g.alts.length + 1)).foldl (· * ·) 1
+  if nw > 40000 then "toobig " ++ toString nw else
+  let r := Sem.run P qs ev
+  renderRat r.z ++ " " ++ renderList (r.num.map renderRat) ++ " " ++ toString r.undefWorlds ++ " " ++
+    toString r.nworlds ++ " " ++ toString (Sem.hasNegCycle P (qs ++ ev.map (·.1))) ++ " " ++
+    toString (Sem.hasNegCycleFull P) ++ " " ++ toString (Sem.undefRootWorlds P qs ev)
 
 def cnfOf (S : Store) : Clark.CNF :=
   { atomcount := S.nodes.length, clauses := [], weights := S.weights, names := S.names, ads := S.ads }
@@ -130,15 +192,29 @@ def step (_ : Unit) (line : String) : Unit × String :=
       match es.mapM (fun (e : SExp) => match e with
           | .list [.atom a, .atom v] => do some ((← a.toNat?), v == "t")
           | _ => none) with
-      | some ev =>
-        let nw := ((Sem.restrict P (qs ++ ev.map (·.1))).groups.map (fun g => g.alts.length + 1)).foldl (· * ·) 1
-        if nw > 40000 then "toobig " ++ toString nw else
-        let r := Sem.run P qs ev
-        renderRat r.z ++ " " ++ renderList (r.num.map renderRat) ++ " " ++ toString r.undefWorlds ++ " " ++
-          toString r.nworlds ++ " " ++ toString (Sem.hasNegCycle P (qs ++ ev.map (·.1))) ++ " " ++
-          toString (Sem.hasNegCycleFull P) ++ " " ++ toString (Sem.undefRootWorlds P qs ev)
+      | some ev => semResult P qs ev
       | none => "bad-op"
     | _, _, _ => "bad-op"
+  | some [SExp.atom "SEMFO", fo] =>
+    -- the specification of a first-order program: Lean does the Herbrand instantiation (`SemFO.ground`);
+    -- output = the SEM result line, then the query instances in the order of the numerators
+    match pFO fo with
+    | some F =>
+      if !SemFO.wellFormed F then "illformed" else
+      semResult (SemFO.ground F) (SemFO.queryIds F) (SemFO.evidenceIds F) ++ " | " ++
+        renderList ((SemFO.queryInstances F).map rGAtom)
+    | none => "bad-op"
+  | some [SExp.atom "GROUNDFO", fo] =>
+    -- the symbolic ground program, for the syntactic cross-check against `spine.reference`
+    match pFO fo with
+    | some F =>
+      let g := SemFO.groundSym F
+      "(rules " ++ " ".intercalate (g.1.map (fun r =>
+          "(" ++ rGAtom r.head ++ " " ++ renderList (r.body.map (fun l => (if l.1 then "+" else "-") ++ rGAtom l.2)) ++ " " ++
+            (match r.choice with | none => "-" | some c => toString c) ++ ")")) ++ ") (groups " ++
+        " ".intercalate (g.2.map (fun gr => renderList (gr.alts.map (fun a => "(" ++ renderRat a.1 ++ " " ++ toString a.2 ++ ")")))) ++
+        ") " ++ toString (SemFO.totalChoices F.consts F.stmts)
+    | none => "bad-op"
   | _ => "bad-op")
 
 def main : IO Unit := runDriver () step
